@@ -223,6 +223,67 @@ func runUnreachable(n, limit int, seed int64) ([]map[string]any, int64, error) {
 	return rec.events, maxTell.Load(), nil
 }
 
+// runResettingPeer: the peer accepts every connection, answers the handshake and resets the connection at once, for
+// ever.  No frame can be written; after ReconnectLimit further attempts each message must be reported as a dead letter,
+// and the number of connections the sender opens is bounded by messages x (limit + 1).
+func runResettingPeer(n, limit int, seed int64) ([]map[string]any, error) {
+	ensureRmsg()
+	rng := rand.New(rand.NewSource(seed))
+	rec := &recvRecorder{}
+	addr := fmt.Sprintf("127.0.0.1:%d", freePort())
+	peerAddr := fmt.Sprintf("127.0.0.1:%d", freePort())
+	peer := &fakePeer{addr: peerAddr, rec: rec, resetAfterHandshake: true}
+	if err := peer.up(); err != nil {
+		return nil, err
+	}
+	defer peer.down()
+	sys := actor.NewSystem(vivid.WithActorSystemContext(context.Background()), vivid.WithActorSystemLogger(silentLogger),
+		vivid.WithActorSystemStopTimeout(3*time.Second), vivid.WithActorSystemRemoting(addr), vivid.WithActorSystemRemotingOption(vivid.WithActorSystemRemotingReconnectLimit(limit)))
+	if err := sys.Start(); err != nil {
+		return nil, err
+	}
+	defer func() { go sys.Stop(2 * time.Second) }()
+	if _, err := sys.ActorOf(vivid.ActorFN(func(ctx vivid.ActorContext) {
+		switch m := ctx.Message().(type) {
+		case *vivid.OnLaunch:
+			ctx.EventStream().Subscribe(ctx, ves.DeathLetterEvent{})
+		case ves.DeathLetterEvent:
+			if r, ok := m.Envelope.Message().(*rmsg); ok {
+				rec.ev(map[string]any{"e": "DLocal", "m": int(r.ID)})
+				rec.count.Add(1)
+			}
+		}
+	}), vivid.WithActorName("dl-observer")); err != nil {
+		return nil, err
+	}
+	target, _ := sys.CreateRef(peerAddr, "/nobody")
+	senderRef, err := sys.ActorOf(vivid.ActorFN(func(ctx vivid.ActorContext) {
+		if m, ok := ctx.Message().(string); ok && m == "go" {
+			for k := 1; k <= n; k++ {
+				rec.ev(map[string]any{"e": "Sent", "src": "/snd", "dst": "/nobody", "m": k, "k": "tell"})
+				ctx.Tell(target, newRmsg(uint32(k), "tell", 10, rng))
+			}
+		}
+	}), vivid.WithActorName("snd"))
+	if err != nil {
+		return nil, err
+	}
+	time.Sleep(20 * time.Millisecond)
+	sys.Tell(senderRef, "go")
+	// back-off 100 ms, 200 ms, ...: limit 2 needs about 0.3 s per message
+	deadline := time.Now().Add(time.Duration(n)*time.Duration(limit+1)*400*time.Millisecond + 2*time.Second)
+	for time.Now().Before(deadline) && int(rec.count.Load()) < n {
+		time.Sleep(time.Millisecond)
+	}
+	time.Sleep(150 * time.Millisecond) // a sender that keeps dialling shows up here
+	peer.mu.Lock()
+	acc := peer.accepted
+	peer.mu.Unlock()
+	rec.ev(map[string]any{"e": "Attempts", "m": acc, "n": n * (limit + 1)})
+	rec.ev(map[string]any{"e": "End", "k": "faulty-strict"})
+	return rec.events, nil
+}
+
 // fakePeer is a TCP endpoint speaking the remoting handshake and framing, fully controlled by the scenario
 // (it stands for a peer process: closing it closes its sockets, like a process exit does).
 type fakePeer struct {
@@ -234,8 +295,10 @@ type fakePeer struct {
 	// cutFirstAfter > 0: the first connection is reset after that many bytes of frame data have been read
 	// (the listener then has a tiny receive buffer, so that the sender's write cannot complete)
 	cutFirstAfter int
-	accepted      int
-	firstGot      int
+	// resetAfterHandshake: every connection is reset as soon as the handshake has been answered (a peer in a crash loop)
+	resetAfterHandshake bool
+	accepted            int
+	firstGot            int
 }
 
 func (p *fakePeer) up() error {
@@ -295,6 +358,13 @@ func (p *fakePeer) serve(conn net.Conn) {
 	p.accepted++
 	first := p.accepted == 1
 	p.mu.Unlock()
+	if p.resetAfterHandshake {
+		if tc, ok := conn.(*net.TCPConn); ok {
+			_ = tc.SetLinger(0)
+		}
+		_ = conn.Close()
+		return
+	}
 	r := bufio.NewReader(conn)
 	if first && p.cutFirstAfter > 0 {
 		// the first small frame is read normally, then only part of the large one, then the connection is reset
@@ -505,13 +575,19 @@ func checkC14(c *core.Ctx) {
 		return
 	}
 	if !os_skipMC() {
-		for _, cfg := range []string{"MC_Link.cfg", "MC_Link2.cfg"} {
+		for _, cfg := range []string{"MC_Link.cfg", "MC_Link2.cfg", "MC_Link_flaky.cfg"} {
 			r, err := tlc.Exec(tlc.Run{Dir: dir, Module: "Link", Config: cfg, Timeout: 5 * time.Minute})
 			if err != nil || r.Violation != "" {
 				c.Broken("model checking %s failed: %v %s\n%s", cfg, err, vio(r), tailOf(r))
 				return
 			}
 			c.MC("Link/"+cfg, r)
+		}
+	}
+	if !os_skipMC() {
+		// self-test of the liveness property: with "a successful connect resets the attempt counter" a crash-looping peer keeps the sender busy for ever
+		if r2, err := tlc.Exec(tlc.Run{Dir: dir, Module: "Link", Config: "MC_Link_flaky_reset.cfg", Timeout: 3 * time.Minute}); err == nil {
+			c.Set("link_variant_reset_on_connect_violates", r2.ViolatedName)
 		}
 	}
 	sender, _ := actor.NewRef("10.1.1.1:7000", "/sender")
@@ -625,6 +701,11 @@ func checkC14(c *core.Ctx) {
 		ev, _, err := runUnreachable(3, limit, c.Seed+int64(i))
 		add(fmt.Sprintf("unreachable-limit%d#%d", limit, i), "tell_unreachable_peer", map[string]any{"messages": 3, "reconnect_limit": limit}, ev, err)
 	}
+	for i, limit := range core.Pick(c, []int{1, 2}, []int{0, 1, 2, 3, 1, 2}) {
+		n := 1 + i%2
+		ev, err := runResettingPeer(n, limit, c.Seed+int64(i))
+		add(fmt.Sprintf("resetting-peer-limit%d#%d", limit, i), "peer_resets_after_handshake", map[string]any{"messages": n, "reconnect_limit": limit}, ev, err)
+	}
 	inconclusive := 0
 	for i := 0; i < core.Pick(c, 2, 6); i++ {
 		size := []int{3500000, 2000000, 3900000}[i%3]
@@ -647,7 +728,7 @@ func checkC14(c *core.Ctx) {
 	res.Report(c, "FaultMon")
 	c.Add("traces_validated_against_impl", int64(res.Validated))
 	c.Set("distinct_nontrivial", nontrivial)
-	c.Set("rule", "receiver: TLC-simulated behaviours of Framing.tla with a connection reset after an arbitrary number of bytes (inside a length prefix, inside a body, at a boundary) replayed on the real connection actor over a scripted net.Conn; streams with an undecodable or an over-long frame among valid ones; sender: a real system telling to an address where nobody listens (ReconnectLimit 0..2) with a dead-letter observer, Tell latency and a local probe; a peer system that stops and comes back on the same address. Judged by FaultMon. Every scenario contains a fault.")
+	c.Set("rule", "receiver: TLC-simulated behaviours of Framing.tla with a connection reset after an arbitrary number of bytes (inside a length prefix, inside a body, at a boundary) replayed on the real connection actor over a scripted net.Conn; streams with an undecodable or an over-long frame among valid ones; sender: a real system telling to an address where nobody listens (ReconnectLimit 0..2) with a dead-letter observer, Tell latency and a local probe; a peer that answers the handshake and resets every connection (bounded attempts, dead letters); a peer system that stops and comes back on the same address. Judged by FaultMon. Every scenario contains a fault.")
 	if len(traces) > 0 {
 		c.Sample(map[string]any{"name": traces[0].Name, "events": head(traces[0].Events, 20)})
 		c.Sample(map[string]any{"name": traces[len(traces)-1].Name, "events": head(traces[len(traces)-1].Events, 30)})
